@@ -548,6 +548,45 @@ func (p *c01Pair) Deliver(d int) (kind string, res string) {
 	return kind, c01ErrClass(err)
 }
 
+// c01TamperSigs returns a copy of the signature set with one signature made
+// invalid but still well-formed: an HTLC signature if htlc is set and there is
+// one, else the commitment signature (the MuSig2 partial signature on taproot
+// channels).
+func c01TamperSigs(in *CommitSigs, htlc bool) *CommitSigs {
+	out := *in
+	out.HtlcSigs = append([]lnwire.Sig(nil), in.HtlcSigs...)
+	flip := func(sg lnwire.Sig) lnwire.Sig {
+		cp := sg.Copy()
+		cp.RawBytes()[47] ^= 0x01 // inside S
+		return cp
+	}
+	if htlc && len(out.HtlcSigs) > 0 {
+		out.HtlcSigs[0] = flip(out.HtlcSigs[0])
+		return &out
+	}
+	if ps, err := in.PartialSig.UnwrapOrErrV(errNoPartialSig); err == nil {
+		var one btcec.ModNScalar
+		one.SetInt(1)
+		bad := ps
+		bad.Sig.Add(&one)
+		out.PartialSig = lnwire.MaybePartialSigWithNonce(&bad)
+		return &out
+	}
+	out.CommitSig = flip(in.CommitSig)
+	return &out
+}
+
+// DeliverTampered pops the oldest message of direction d, which must be a
+// commitment_signed, corrupts one of its signatures and hands it to the
+// receiver.  The link would fail the channel on the answer.
+func (p *c01Pair) DeliverTampered(d int, htlc bool) (res string) {
+	m := p.Q[d][0]
+	p.Q[d] = p.Q[d][1:]
+	defer c01Recover(&res)
+	err := p.Ch[1-d].ReceiveNewCommitment(c01TamperSigs(m.sigs, htlc))
+	return c01ErrClass(err)
+}
+
 // ---------------------------------------------------------------------------
 // canonical state dump
 // ---------------------------------------------------------------------------
@@ -753,6 +792,7 @@ type c01Sched struct {
 	adds [2]int
 	last *c01Act // last add (for equal hash/amount/expiry duplicates)
 	dead bool    // a delivery was rejected: the link would have failed
+	tamper bool  // this case ends with a corrupted commitment_signed
 
 	stats map[string]int
 }
@@ -935,6 +975,23 @@ func (s *c01Sched) step(eagerRevoke bool, maxAdds int) bool {
 
 	for d := 0; d < 2; d++ {
 		d := d
+		if len(s.p.Q[d]) > 0 && s.p.Q[d][0].kind == "commitsig" && s.tamper && r.Intn(3) == 0 {
+			// a forged / corrupted commitment_signed: must be rejected; the
+			// link fails the channel, so the case ends here
+			add(40, func() {
+				res := s.p.DeliverTampered(d, r.Intn(2) == 0)
+				dir := "AB"
+				if d == 1 {
+					dir = "BA"
+				}
+				s.emit(fmt.Sprintf("D %s commitsig-bad => %s q=%d,%d\n", dir, res,
+					len(s.p.Q[0]), len(s.p.Q[1])))
+				s.dump(1 - d)
+				s.stats["deliver_commitsig_bad"]++
+				s.stats["res_bad_"+strings.SplitN(res, ":", 2)[0]]++
+				s.dead = true
+			})
+		}
 		if len(s.p.Q[d]) > 0 {
 			add(4, func() {
 				kind := s.p.Q[d][0].kind
@@ -1142,6 +1199,7 @@ func TestVerifC01(t *testing.T) {
 					t.Fatalf("pair: %v", err)
 				}
 				s := &c01Sched{r: r, p: pair, w: w, stats: stats}
+				s.tamper = c%6 == 5
 				w.WriteString(c01CaseHeader(caseID, "sched", p, pair))
 				s.dump(0)
 				s.dump(1)
